@@ -314,6 +314,10 @@ def run(ctx, eng):
                'frames for a forgotten stream: RST_STREAM after a reset, '
                'STREAM_CLOSED after END_STREAM, PROTOCOL_ERROR otherwise - '
                'decided for the stream the frame arrived on')
+    cm.include(ctx, eng, 'C17', {'ORD.parse-body'},
+               'a frame of the wrong size is detected by parse_body, whose '
+               'refusal is translated into FRAME_SIZE_ERROR: no frame leaves '
+               'the buffer unparsed')
     cm.include(ctx, eng, 'C09', {'ARITH.lookup'},
                'a frame on an idle stream is PROTOCOL_ERROR, on a forgotten '
                'one STREAM_CLOSED: told apart by the id\'s own direction')
